@@ -211,6 +211,13 @@ func (self BinaryConv) handleError(ctx context.Context, fsm *types.J2TStateMachi
 			// NOTICE: if native ran out of buffer while collecting unset fields, it collects them again
 			// from the first one after re-entry, thus the fields cached so far must be dropped
 			fsm.FieldCache = fsm.FieldCache[:0]
+			// NOTICE: if native ran out of buffer at the STOP byte of a struct, it has already released the
+			// requires-bitmap of that struct and releases it once more after re-entry, thus take it back
+			if st := fsm.At(fsm.SP - 1); st != nil && (types.J2T_STATE(st.State&0xffff) == types.J2T_OBJ || types.J2T_STATE(st.State&0xffff) == types.J2T_OBJ_0) {
+				if desc, reqs := getJ2TExtraStruct(fsm, fsm.SP); desc != nil && desc.Type() == thrift.STRUCT && len(reqs) > 0 {
+					fsm.ReclaimReqs(unsafe.Pointer(&reqs[0]), len(reqs)*int(unsafe.Sizeof(reqs[0])))
+				}
+			}
 			c := cap(*buf)
 			c += c >> 1
 			if c < cap(*buf)+p {
